@@ -129,7 +129,7 @@ def verify_functions(functions, contract_modules, timeout_ms, edits=None, active
     for q in functions:
         for pre in prefixes[q]:
             jobs.append((q, contract_modules, timeout_ms, edits, active_cases or {}, pre))
-    if serial or len(jobs) == 1:
+    if serial or len(jobs) <= 1:
         raw = [_worker(j) for j in jobs]
     else:
         with mp.Pool(procs or min(16, len(jobs))) as pool:
@@ -186,6 +186,43 @@ def _native_replay(function, obligation, rec, contract_modules, repo):
     return out
 
 
+def run_lemmas(prop, edits):
+    """Property-specific lemma obligations (e.g. regex language facts) computed in-process; same record format as a
+    function result."""
+    out = []
+    for lf in getattr(prop, "LEMMAS", []):
+        t0 = time.time()
+        try:
+            recs = lf(edits)
+            out.append({"function": getattr(lf, "__name__", "lemma"), "status": "ok", "obligations": recs, "paths": 0,
+                        "wall_s": round(time.time() - t0, 3), "solver_s": sum(r.get("secs", 0) for r in recs), "covers": {}})
+        except Exception:
+            err = traceback.format_exc()
+            if "does not apply exactly once" in err:
+                out.append({"function": getattr(lf, "__name__", "lemma"), "status": "crash", "error": err, "obligations": []})
+            else:
+                out.append({"function": getattr(lf, "__name__", "lemma"), "status": "crash", "error": err, "obligations": []})
+    return out
+
+
+def run_bounded_on_edit(bc, seed, repo, edits):
+    """Run a bounded script against a scratch copy of the package with a seeded edit applied."""
+    import shutil
+    import tempfile
+    tmp = tempfile.mkdtemp(prefix="verif-breaker-")
+    try:
+        shutil.copytree(os.path.join(repo, "octoprint_excluderegion"), os.path.join(tmp, "octoprint_excluderegion"))
+        for (mod, old, new) in edits:
+            pth = os.path.join(tmp, "octoprint_excluderegion", mod + ".py")
+            txt = open(pth, "rb").read().decode("utf-8").replace("\r\n", "\n")
+            if txt.count(old) != 1:
+                return {"name": "bounded", "violations": [], "skipped": True}
+            open(pth, "w").write(txt.replace(old, new))
+        return bc("quick", seed, tmp)
+    finally:
+        shutil.rmtree(tmp, ignore_errors=True)
+
+
 def relevant(ob, tags):
     """Does an obligation record count for a property with these clause tags?"""
     if ob["kind"] != "post":
@@ -206,6 +243,7 @@ def run_property(prop, tier, seed):
     for fd in findings:
         active_cases.setdefault(fd["obligation"], []).append(fd["case"])
     results = verify_functions(prop.FUNCTIONS, prop.CONTRACT_MODULES, timeout_ms, active_cases=active_cases)
+    results += run_lemmas(prop, None)
     tags = getattr(prop, "TAGS", (pid,))
     n_ob = n_dis = 0
     undecided = []
@@ -310,7 +348,11 @@ def run_property(prop, tier, seed):
             violations.append(({"name": br["name"] + "/" + v.get("clause", "bounded"), "kind": "bounded", "bounded": v,
                                 "status": "refuted", "backend": "bounded", "secs": 0}, br["name"]))
         for kf in br.get("known", []):
-            known_hit.append(({"name": kf["obligation"], "bounded": kf, "case": kf.get("case")}, br["name"]))
+            if (kf["obligation"], kf.get("case")) in [(fd["obligation"], fd["case"]) for fd in findings]:
+                known_hit.append(({"name": kf["obligation"], "bounded": kf, "case": kf.get("case")}, br["name"]))
+            else:   # the script recognised the failure pattern, but it is not a recorded finding: a violation
+                violations.append(({"name": kf["obligation"], "kind": "bounded", "bounded": kf, "status": "refuted",
+                                    "backend": "bounded", "secs": 0}, br["name"]))
     # ---- self-validation: seeded breakers must be refuted
     selfval = []
     breakers = list(getattr(prop, "BREAKERS", []))
@@ -321,6 +363,14 @@ def run_property(prop, tier, seed):
         fnlist = bk.get("functions", prop.FUNCTIONS)
         rs = verify_functions(fnlist, prop.CONTRACT_MODULES, timeout_ms, edits=[(bk["module"], bk["old"], bk["new"])],
                               active_cases=active_cases)
+        if bk.get("lemmas"):
+            rs += run_lemmas(prop, [(bk["module"], bk["old"], bk["new"])])
+        if bk.get("bounded"):
+            for bc in getattr(prop, "BOUNDED", []):
+                br = run_bounded_on_edit(bc, seed, repo, [(bk["module"], bk["old"], bk["new"])])
+                rs.append({"function": br["name"], "status": "ok", "obligations": [
+                    {"name": br["name"] + "/" + v.get("clause", "bounded"), "kind": "bounded", "status": "refuted", "backend": "bounded",
+                     "secs": 0, "props": list(tags)} for v in br.get("violations", [])[:3]]})
         hit = [ob["name"] for r in rs for ob in r.get("obligations", []) if ob["status"] == "refuted"
                and ob.get("expected") != "sat" and relevant(ob, tags)]
         if not hit:
